@@ -18,8 +18,10 @@ class MachineryError(Exception):
     pass
 
 
-def _java(xmx='2g', xss='256m', deque=False):
+def _java(xmx='2g', xss='256m', deque=False, gcthreads=None):
     cmd = ['java', '-XX:+UseParallelGC', f'-Xss{xss}', f'-Xmx{xmx}']
+    if gcthreads:
+        cmd.append(f'-XX:ParallelGCThreads={gcthreads}')
     if deque:
         cmd.append('-Dtlc2.tool.queue.IStateQueue=StateDeque')
     cmd += ['-cp', f'{JAR}:{DEPS}', 'tlc2.TLC']
@@ -30,7 +32,7 @@ def run_tlc(spec, cfg, metadir, env=None, workers=1, extra=None,
             timeout=3600, xmx='2g'):
     """Run TLC on `spec` (module name in SPEC) with config `cfg`."""
     os.makedirs(metadir, exist_ok=True)
-    cmd = _java(xmx=xmx) + [
+    cmd = _java(xmx=xmx, gcthreads=2 if workers == 1 else None) + [
         '-workers', str(workers), '-metadir', metadir,
         '-noGenerateSpecTE', '-config', cfg]
     if extra:
@@ -79,12 +81,13 @@ def parse_tuples(out, tag):
     Returns a list of raw strings (inside of the outer << >>).
     """
     res = []
-    key = '<<"%s"' % tag
+    pat = re.compile(r'<<\s*"%s"' % re.escape(tag))
     i = 0
     while True:
-        i = out.find(key, i)
-        if i < 0:
+        m = pat.search(out, i)
+        if not m:
             break
+        i = m.start()
         depth = 0
         j = i
         while j < len(out):
@@ -99,13 +102,14 @@ def parse_tuples(out, tag):
                     break
                 continue
             j += 1
-        res.append(out[i + 2:j - 2])
+        res.append(out[i + 2:j - 2].strip())
         i = j
     return res
 
 
 _VERD = re.compile(
-    r'"VERDICT",\s*("?[^,"]*"?),\s*(\d+),\s*\{(.*)\}\s*$', re.S)
+    r'"VERDICT",\s*("?[^,"]*"?),\s*(\d+),\s*\{(.*?)\}\s*(?:,\s*(-?\d+))?\s*$',
+    re.S)
 
 
 def parse_verdicts(out):
@@ -121,7 +125,8 @@ def parse_verdicts(out):
         except ValueError:
             pass
         clauses = re.findall(r'"([^"]+)"', m.group(3))
-        res.append((tid, int(m.group(2)), clauses))
+        pos = int(m.group(4)) if m.group(4) is not None else None
+        res.append((tid, int(m.group(2)), clauses, pos))
     return res
 
 
@@ -164,8 +169,8 @@ def validate_shards(spec, cfg, shards, tag, env=None, jobs=None,
                     f'log: {log}\n' + r['out'][-3000:])
             total += r['distinct']
             wall = max(wall, r['wall'])
-            for tid, idx, clauses in parse_verdicts(r['out']):
-                verdicts.append((r['shard'], tid, idx, clauses))
+            for tid, idx, clauses, pos in parse_verdicts(r['out']):
+                verdicts.append((r['shard'], tid, idx, clauses, pos))
     return verdicts, dict(states=total, wall=wall, shards=len(shards))
 
 
